@@ -17,12 +17,25 @@ where
     let file = File::open(filename)?;
 
     if is_gzip {
-        let reader = BufReader::new(GzDecoder::new(file));
-        Ok(reader.lines().count())
+        count_lines(BufReader::new(GzDecoder::new(file)))
     } else {
-        let reader = BufReader::new(file);
-        let count = reader.lines().count();
-        Ok(count)
+        count_lines(BufReader::new(file))
+    }
+}
+
+/// counts the lines of a reader. a read error ends the count with that error:
+/// `reader.lines().count()` would never return on a reader that keeps failing
+/// (such as the decoder of a truncated gzip file), since `Lines` yields the
+/// error again on every call.
+fn count_lines<R: BufRead>(mut reader: R) -> io::Result<usize> {
+    let mut count = 0;
+    let mut line = Vec::new();
+    loop {
+        line.clear();
+        if reader.read_until(b'\n', &mut line)? == 0 {
+            return Ok(count);
+        }
+        count += 1;
     }
 }
 
